@@ -5,7 +5,7 @@ from shell import replayers
 ID = "C02"
 LEVEL = "other"
 FUNCTIONS = ["Exchange.process_EventNBBO", "body:Transmitter._create_partitions#0"]
-SHELL = [c02.env_prefix, c02.xy_prefix]
+SHELL = [c02.env_prefix, c02.xy_prefix, c02.latency_boundary]
 LEVEL_TEXT = ("Two-run property. Bounded shell: every cut t of seeded streams, later values perturbed, full output prefix compared "
               "bit-for-bit, through TradingEnv and through the tabular API. Deductive kernel so far: the exchange installs exactly the "
               "quote of the event it is given (C14 contracts); the partition/frame obligations of DESIGN §7 C02 are listed as not yet "
